@@ -1832,19 +1832,24 @@ def _mms_setup(cname):
 _MMS_CACHE = {}
 
 
-def _mms_solve(pf, cname, N, setup, scheme, bc_kind, graded):
+def _mms_solve(pf, cname, N, setup, scheme, bc_kind, graded, si=False):
+    """si=True: the same manufactured problem written in SI-like units (lengths ~1e-7, times ~1e-5, so D ~ 1e-9, u ~ 1e-2) with the
+    face diffusivity obtained as harmonicMean of a cell field -- the way a user with physical data would set it up"""
     d = setup["d"]
     kind = gen.AXKIND[cname]
+    Lc, Tc = (1e-7, 1e-5) if si else (1.0, 1.0)
+    sc = [Lc if kind[a] in ("len", "rad") else 1.0 for a in range(d)]
     fs = []
     for a in range(d):
         lo, hi = {"len": (0.0, 1.0), "rad": (1.0, 2.0), "ang": (0.3, 1.3), "pol": (0.6, 1.6)}[kind[a]]
         t = np.linspace(0.0, 1.0, N + 1)
         if graded:
             t = t + 0.3 * t * (1 - t) * (1 + 0.5 * t)     # smooth, ASYMMETRIC grading: first cell ~1.3 h, last cell ~0.55 h
-        fs.append(lo + (hi - lo) * t)
+        fs.append((lo + (hi - lo) * t) * sc[a])
     mesh = gen.build_mesh(pf, cname, fs)
-    cc = [mesh.cellcenters._x, mesh.cellcenters._y, mesh.cellcenters._z][:d]
-    fc = [mesh.facecenters._x, mesh.facecenters._y, mesh.facecenters._z][:d]
+    # everything below works in the unit variables xi = x / sc; physical quantities are scaled where they enter the library
+    cc = [np.asarray(c) / sc[a] for a, c in enumerate([mesh.cellcenters._x, mesh.cellcenters._y, mesh.cellcenters._z][:d])]
+    fc = [np.asarray(c) / sc[a] for a, c in enumerate([mesh.facecenters._x, mesh.facecenters._y, mesh.facecenters._z][:d])]
     G = np.meshgrid(*cc, indexing="ij")
     BC = pf.BoundaryConditions(mesh)
     for a in range(d):
@@ -1864,8 +1869,8 @@ def _mms_solve(pf, cname, N, setup, scheme, bc_kind, graded):
             if bc_kind == "dirichlet":
                 f.a[:] = 0.0; f.b[:] = 1.0; f.c[:] = np.reshape(val, f.c.shape)
             else:   # Robin: a*dphi/dn + b*phi = c along the positive coordinate direction
-                f.a[:] = 1.0 if s == 1 else -1.0; f.b[:] = 2.0
-                f.c[:] = np.reshape((1.0 if s == 1 else -1.0) * dn + 2.0 * val, f.c.shape)
+                f.a[:] = 1.0 if s == 1 else -1.0; f.b[:] = 2.0 / Lc
+                f.c[:] = np.reshape((1.0 if s == 1 else -1.0) * dn / Lc + 2.0 / Lc * val, f.c.shape)
     # face coefficient fields at face centres
     Df, uf = [], []
     for a in range(d):
@@ -1873,9 +1878,21 @@ def _mms_solve(pf, cname, N, setup, scheme, bc_kind, graded):
         Df.append(setup["D"](*coords) * np.ones(coords[0].shape))
         uf.append((setup["u1"](*coords) * np.ones(coords[0].shape)) if a == 0 else np.zeros(coords[0].shape))
     while len(Df) < 3: Df.append(np.array([])); uf.append(np.array([]))
-    D = pf.FaceVariable(mesh, *Df); u = pf.FaceVariable(mesh, *uf)
-    gam = pf.CellVariable(mesh, setup["gamma"](*G) * np.ones(G[0].shape))
-    beta = pf.CellVariable(mesh, setup["beta"])
+    Dc, Uc = Lc ** 2 / Tc, Lc / Tc
+    if si:
+        # cell-centred diffusivity incl. ghost cells (centres mirrored across the boundary faces), then harmonicMean
+        ccg = []
+        for a in range(d):
+            c = cc[a]; f = fc[a]
+            ccg.append(np.hstack([2 * f[0] - c[0], c, 2 * f[-1] - c[-1]]))
+        Gg = np.meshgrid(*ccg, indexing="ij")
+        Dcell = pf.CellVariable(mesh, Dc * setup["D"](*Gg) * np.ones(Gg[0].shape))
+        D = pf.harmonicMean(Dcell)
+    else:
+        D = pf.FaceVariable(mesh, *Df)
+    u = pf.FaceVariable(mesh, *[Uc * x for x in uf])
+    gam = pf.CellVariable(mesh, setup["gamma"](*G) * np.ones(G[0].shape) / Tc)
+    beta = pf.CellVariable(mesh, setup["beta"] / Tc)
     phi = pf.CellVariable(mesh, 0.0, BC)
     conv = pf.convectionTerm(u) if scheme == "central" else pf.convectionUpwindTerm(u)
     pf.solvePDE(phi, [-pf.diffusionTerm(D), conv, pf.linearSourceTerm(beta), pf.constantSourceTerm(gam)])
@@ -1891,20 +1908,39 @@ def probe_c02(ctx, pf):
             _MMS_CACHE[cname] = _mms_setup(cname)
         setup = _MMS_CACHE[cname]
         d = setup["d"]
-        variants = [("central", "dirichlet", False), ("central", "robin", True), ("upwind", "dirichlet", True)]
+        variants = [("central", "dirichlet", False, False), ("central", "robin", True, False), ("upwind", "dirichlet", True, False),
+                    ("central", "robin", True, True)]
         if ctx.tier != "quick":
-            variants += [("central", "dirichlet", True), ("central", "robin", False), ("upwind", "robin", False)]
-        for scheme, bck, graded in variants:
+            variants += [("central", "dirichlet", True, False), ("central", "robin", False, False), ("upwind", "robin", False, False), ("upwind", "dirichlet", True, True)]
+        for scheme, bck, graded, si in variants:
             try:
                 with np.errstate(all="ignore"):
-                    errs = [_mms_solve(pf, cname, N, setup, scheme, bck, graded) for N in Ns[d]]
+                    errs = [_mms_solve(pf, cname, N, setup, scheme, bck, graded, si) for N in Ns[d]]
             except Exception as ex:
                 ctx.violation(f"c02:{cname}:raise", f"{cname}: manufactured-solution run raised {type(ex).__name__}: {ex}", {"cls": cname, "scheme": scheme, "bc": bck}); continue
             n += 1
             ratio = np.log(errs[0] / errs[-1]) / np.log(Ns[d][-1] / Ns[d][0]) if errs[-1] > 0 else 9.0
             need = 1.4 if scheme == "central" else 0.6
-            L = {"cls": cname, "scheme": scheme, "bc": bck, "graded": graded, "N": list(Ns[d]), "max_rel_errors": errs, "observed_order": float(ratio)}
+            L = {"cls": cname, "scheme": scheme, "bc": bck, "graded": graded, "si_units_harmonic_D": si, "N": list(Ns[d]), "max_rel_errors": errs, "observed_order": float(ratio)}
             if not np.all(np.isfinite(errs)) or ratio < need or errs[-1] > 0.05:
-                ctx.violation(f"c02:{cname}:{scheme}:{bck}:{'graded' if graded else 'uniform'}",
-                              f"{cname}: error against the manufactured exact solution does not decrease at the order of the scheme ({scheme}, {bck}, {'graded' if graded else 'uniform'}): errors {['%.3g' % e for e in errs]}, observed order {ratio:.2f}", L)
+                ctx.violation(f"c02:{cname}:{scheme}:{bck}:{'graded' if graded else 'uniform'}{':si' if si else ''}",
+                              f"{cname}: error against the manufactured exact solution does not decrease at the order of the scheme ({scheme}, {bck}, {'graded' if graded else 'uniform'}{', SI-scale units with D = harmonicMean of a cell field' if si else ''}): errors {['%.3g' % e for e in errs]}, observed order {ratio:.2f}", L)
     return n
+
+
+# ------------------------------------------------------------------ second layer: representations and argument forms (tools/reprprobes.py)
+def _with_extra(name):
+    import reprprobes
+    base = globals()[name]
+    extra = getattr(reprprobes, "extra_" + name[len("probe_"):], None)
+    if extra is None:
+        return base
+    def wrapped(ctx, pf):
+        n = base(ctx, pf)
+        return n + extra(ctx, pf)
+    wrapped.__name__ = name
+    return wrapped
+
+
+for _nm in [k for k in list(globals()) if k.startswith("probe_c") and k[7:9].isdigit() and len(k) == 9]:
+    globals()[_nm] = _with_extra(_nm)
